@@ -74,7 +74,7 @@ func runMkseq(a hx.Args) string {
 		case op == opNull:
 			stack = append(stack, seqFrame{null: true, r: b.MakeNullMove()})
 		default:
-			m := move.Move(op)
+			m := hx.U2M(uint64(op))
 			stack = append(stack, seqFrame{m: m, r: b.MakeMove(m)})
 		}
 		seqRec(out, b)
@@ -95,7 +95,7 @@ func opString(op uint64) string {
 	case opPop:
 		return "undo"
 	}
-	return move.Move(op).String()
+	return hx.U2M(uint64(op)).String()
 }
 
 // genMkseq walks the way the search does: make a generated move; if it leaves the own king attacked
@@ -223,10 +223,10 @@ func genMkseq(rng *hx.Rng, n int, tier string, emit func(hx.Input)) {
 						tags["capture"] = true
 					}
 					me := b.STM
-					pending = uint64(m)
+					pending = hx.M2U(m)
 					r := b.MakeMove(m)
 					pending = 0
-					ops = append(ops, uint64(m))
+					ops = append(ops, hx.M2U(m))
 					if b.EnPassant != 0 {
 						tags["sets-ep"] = true
 					}
@@ -314,7 +314,7 @@ func runMktp(a hx.Args) string {
 		b := board.VerifRestore(snap)
 		n := a.Int(i)
 		for k := 0; k < n; k++ {
-			b.MakeMove(move.Move(a.U64(i + 1 + k)))
+			b.MakeMove(hx.U2M(a.U64(i + 1 + k)))
 		}
 		i += 1 + n
 		out.BoardOutNoHist(b).U(uint64(b.Hash()))
@@ -397,13 +397,13 @@ func genMktp(rng *hx.Rng, n int, tier string, emit func(hx.Input)) {
 				sb.WriteString(p.Desc() + " line1")
 				in.Int(4)
 				for _, m := range line {
-					in.U(uint64(m))
+					in.U(hx.M2U(m))
 					sb.WriteString(" " + m.String())
 				}
 				sb.WriteString(" line2")
 				in.Int(4)
 				for _, m := range alt {
-					in.U(uint64(m))
+					in.U(hx.M2U(m))
 					sb.WriteString(" " + m.String())
 				}
 				tag := "same-position"
